@@ -48,7 +48,10 @@ where
             .map_err(|e| SnmpError::SocketError(e.to_string()))?;
         if timeout_ns > 0 {
             // Blocking mode
-            io.set_read_timeout(Some(Duration::from_nanos(timeout_ns)))
+            // The socket option has microsecond resolution and
+            // zero means "wait forever": round very small timeouts up
+            let timeout = Duration::from_nanos(timeout_ns).max(Duration::from_micros(1));
+            io.set_read_timeout(Some(timeout))
                 .map_err(|e| SnmpError::SocketError(e.to_string()))?;
         } else {
             // Mark socket as non-blocking
